@@ -9,12 +9,14 @@ import Driver.C08
 import Driver.C10Mon
 import Driver.C15
 import Driver.C06Mon
+import Driver.C17
 open Kv
 
 structure DState where
   c04 : Drv.Flow.FullSt := {}
   c07 : Drv.Flow.FullSt := {}
   c08 : Drv.C08.FullSt := {}
+  c17 : Drv.C17.MonSt := {}
   deriving Inhabited
 
 /-- full driver: regenerated model + monitor -/
@@ -31,6 +33,7 @@ def dispatch (st : DState) (prop : String) (l : Line) : DState × String :=
   | "C10" => (st, Drv.C10.step l)
   | "C15" => (st, Drv.C15.step l)
   | "C06" => (st, Drv.C06.step l)
+  | "C17" => let (s, r) := Drv.C17.step st.c17 l; ({ st with c17 := s }, r)
   | _ => (st, "bad-op")
 
 def main : IO Unit := driverMain dispatch {}
